@@ -147,9 +147,15 @@ def run(chk):
               "solve_lin(m, lambda M, lambda rhs) (dependency contract: M y = rhs)")
     chk.assume("callee contract (C15): arnoldi(A, r0, m, tol) returns Q with orthonormal columns, first column r0/||r0||, and H with A Q[:, :m] = Q H, using at most "
                "min(m, n) products with A per column")
+    lean = alg.theorems_checked(["T_gmres_optimal", "T_gmres_le_initial", "T_gmres_exact"])
     chk.assume("with that contract the solution of the normal equations H^H H y = beta H^H e1 minimises ||b - A(x0 + Q_m y)|| = ||beta e1 - H y|| over x0 + K_m "
-               "(Saad & Schultz 1986, Prop. 1; normal equations characterise least squares): ASSUMED, not formalised; consequences (residual <= initial residual, "
-               "non-increasing in m, zero at the degree of the minimal polynomial) are sampled by the bounded stand-in")
+               "(Saad & Schultz 1986, Prop. 1): " +
+               ("PROVED in Lean 4 / Mathlib from the contract (lemmas/Theorems.lean: T_gmres_optimal; T_gmres_le_initial: never above the initial residual; "
+                "T_gmres_exact: zero once the space contains a solution; recorded in lemmas/lean_checked.json, lean is not run by the check).  Not formalised: the "
+                "columns of steps that were not run (zero columns of H: the regularised system forces y_j = 0 there and the other rows are the normal equations "
+                "of the leading block, to which the theorem applies), and that range(Q_m) is the Krylov space K_m (C15)"
+                if lean else "ASSUMED, not formalised") +
+               "; the consequences are also sampled by the bounded stand-in on the real code")
     chk.assume("product count: the statement's 'm products' is read as the products of the Krylov process; the initial residual b - A x0 costs one more for every x0")
     chk.assume("use_triangular / use_householder variants and the preconditioner argument (unused by gmres_fwd) are outside the domain")
     tasks = [("fwd", "real"), ("fwd", "complex"), ("front", "vector"), ("front", "vector-x0"), ("front", "matrix"), ("front", "matrix-x0")]
